@@ -3,37 +3,92 @@ import z3
 
 from pyvc import sv
 from pyvc.contract import Contract
-from pyvc.sv import And, Or, Not, Implies, If, Time, Pay, Entry
-from .base import (absdiff, is_none, sorted_strict, strip_none, times_set, tm, val_of, entry_is_str)
+from pyvc.sv import And, Or, Not, Implies, If, Time, Pay, Entry, TRef, TOpt, Int, Str
+from .base import (WORLD, TimeOpt, absdiff, entry_is_str, entry_parts, entry_str_e, entry_pay_e, fexists, is_none, sorted_strict, strip_none,
+                   suffix_of, times_set, tm, val_in, NBYTES)
 
 OUT = "finam.sdk.output.Output"
+MOD_RET = lambda ctx: [(ctx.self, "data"), (ctx.self, "_connected_inputs"), (ctx.self, "_total_mem"), (WORLD, "$fexists")]
+
+
+# ------------------------------------------------------------------------------------------- invariants
+def files_ok(ctx, d, tag="f"):
+    """every spilled entry names an existing file; names are pairwise distinct"""
+    i = z3.Int(sv.uid(tag + "i"))
+    j = z3.Int(sv.uid(tag + "j"))
+    fx = fexists(ctx)
+
+    def fn(k):
+        s, _p = entry_parts(d.at(k).items[1])
+        return entry_str_e(d.at(k).items[1])
+
+    def isf(k):
+        return entry_is_str(d.at(k).items[1])
+
+    return And(
+        z3.ForAll([i], Implies(And(0 <= i, i < d.n, isf(i)), fx.dom(fn(i)))),
+        z3.ForAll([i, j], Implies(And(0 <= i, i < j, j < d.n, isf(i), isf(j)), fn(i) != fn(j))),
+    )
+
+
+def all_pulled(ci):
+    c = z3.Int(sv.uid("c"))
+    return z3.ForAll([c], Implies(ci.dom(c), Not(is_none(ci.val(c)))))
+
+
+def head_le_requests(d, ci):
+    c = z3.Int(sv.uid("c"))
+    return z3.ForAll([c], Implies(ci.dom(c), And(Not(is_none(ci.val(c))), tm(d, z3.IntVal(0)) <= strip_none(ci.val(c)).e)))
+
+
+def out_inv(ctx, o):
+    """OutInv for a non-static output / buffer"""
+    d = ctx.get(o, "data")
+    h = ctx.get(o, "$hist")
+    ci = ctx.get(o, "_connected_inputs")
+    return And(
+        times_set(h), sorted_strict(h), suffix_of(d, h),
+        times_set(d), sorted_strict(d),
+        Implies(h.n - d.n > 0, head_le_requests(d, ci)),
+        files_ok(ctx, d),
+    )
+
+
+def nearest_in(ctx, h, t, result, tag="near"):
+    k = z3.Int("k!" + tag)
+    j = z3.Int("j!" + tag)
+    nearest = z3.ForAll([j], Implies(And(0 <= j, j < h.n), absdiff(t, tm(h, k)) <= absdiff(t, tm(h, j))))
+    return z3.Exists([k], And(0 <= k, k < h.n, result.e == val_in(ctx, h.at(k).items[1]), nearest))
 
 
 def register(reg):
-    # ---- _unpack: Val(entry)
+    # ------------------------------------------------------------------ _unpack (C10.2 core)
+    def unpack_pre(ctx):
+        return Implies(entry_is_str(ctx.where), fexists(ctx).dom(entry_str_e(ctx.where)))
+
     reg.add(Contract(
-        f"{OUT}._unpack", self_cls="Output", params={"where": Entry}, pure=True, verify=False,
-        result_fn=lambda ctx: sv.SPay(val_of(ctx.where)),
-        note="spec function Val(entry); body verified in C10",
+        f"{OUT}._unpack", self_cls="Output", props=["C10.2", "C08.1"], params={"where": Entry}, result=Pay,
+        requires=unpack_pre, pure=True, modifies=lambda ctx: [],
+        ensures=lambda ctx, r: And(Not(entry_is_str(r)), entry_pay_e(r) == val_in(ctx, ctx.where)),
+        raises={"FinamNoDataError": lambda ctx: And(entry_is_str(ctx.where),
+                                                    Or(is_none(ctx.get(ctx.self, "_output_info")),
+                                                       ctx.get(ctx.self, "_out_infos_exchanged") .e < ctx.get(ctx.self, "_connected_inputs").keys.n))},
+        note="Val(F, entry): in-RAM payload itself, spilled: the file content (units: see C10.2)",
     ))
 
-    # ---- _interpolate  (C08.1)
+    # ------------------------------------------------------------------ _interpolate (C08.1)
     def interp_pre(ctx):
         d = ctx.get(ctx.self, "data")
-        return And(d.n >= 1, times_set(d), sorted_strict(d))
+        return And(d.n >= 1, times_set(d), sorted_strict(d), files_ok(ctx, d), info_ready(ctx))
+
+    def info_ready(ctx):
+        return And(Not(is_none(ctx.get(ctx.self, "_output_info"))),
+                   ctx.get(ctx.self, "_out_infos_exchanged").e >= ctx.get(ctx.self, "_connected_inputs").keys.n)
 
     def out_of_range(ctx):
-        d = ctx.get(ctx.self, "data")
+        d = ctx.old.get(ctx.self, "data")
         t = ctx.time.e
         return Or(t < tm(d, z3.IntVal(0)), t > tm(d, d.n - 1))
-
-    def interp_post(ctx, result):
-        d = ctx.get(ctx.self, "data")
-        t = ctx.time.e
-        k = z3.Int("k!near")
-        j = z3.Int("j!near")
-        nearest = z3.ForAll([j], Implies(And(0 <= j, j < d.n), absdiff(t, tm(d, k)) <= absdiff(t, tm(d, j))))
-        return z3.Exists([k], And(0 <= k, k < d.n, result.e == val_of(d.at(k).items[1]), nearest))
 
     def interp_inv(ctx):
         d = ctx.get(ctx.self, "data")
@@ -41,11 +96,268 @@ def register(reg):
         return z3.ForAll([q], Implies(And(0 <= q, q < ctx.k), tm(d, q) < ctx.time.e))
 
     reg.add(Contract(
-        f"{OUT}._interpolate", self_cls="Output", props=["C08.1"], params={"time": Time}, result=Pay,
-        requires=interp_pre, ensures=interp_post,
+        f"{OUT}._interpolate", self_cls="Output", props=["C08.1", "C09.3", "C10.3"], params={"time": Time}, result=Pay,
+        requires=interp_pre,
+        ensures=lambda ctx, r: nearest_in(ctx, ctx.get(ctx.self, "data"), ctx.time.e, r),
         raises={"FinamTimeError": out_of_range}, must_raise={"FinamTimeError": out_of_range},
         modifies=lambda ctx: [], raise_frame_empty=True,
         loops={1: dict(invariant=interp_inv)},
     ))
 
-REPLAY = {"finam.sdk.output.Output._interpolate": "output_hist.py"}
+    # ------------------------------------------------------------------ _clear_data (C09.2, C10.4)
+    def clear_pre(ctx):
+        d = ctx.get(ctx.self, "data")
+        return And(out_inv(ctx, ctx.self), d.n >= 1, tm(d, z3.IntVal(0)) <= ctx.time.e)
+
+    def ci_updated(ctx):
+        ci0 = ctx.old.get(ctx.self, "_connected_inputs")
+        ci1 = ctx.get(ctx.self, "_connected_inputs")
+        c = z3.Int(sv.uid("c"))
+        tgt = ctx.ex.key_expr(ctx.target)
+        return And(
+            ci1.dom(tgt), Not(is_none(ci1.val(tgt))), strip_none(ci1.val(tgt)).e == ctx.time.e,
+            z3.ForAll([c], Implies(c != tgt, And(ci1.dom(c) == ci0.dom(c), sv.value_eq(ci1.val(c), ci0.val(c))))),
+        )
+
+    def length_bound(ctx):
+        d = ctx.get(ctx.self, "data")
+        ci = ctx.get(ctx.self, "_connected_inputs")
+        c = z3.Int("c!slow")
+        slow = z3.Exists([c], And(ci.dom(c), Not(is_none(ci.val(c))), tm(d, z3.IntVal(1)) > strip_none(ci.val(c)).e))
+        return Implies(all_pulled(ci), Or(d.n == 1, slow))
+
+    def clear_post(ctx, r):
+        d0, d1 = ctx.old.get(ctx.self, "data"), ctx.get(ctx.self, "data")
+        return And(out_inv(ctx, ctx.self), d1.n >= 1, ci_updated(ctx), length_bound(ctx),
+                   removed_dropped(ctx, d0, d1), only_removed(ctx, d0))
+
+    def clear_inv(ctx):
+        d = ctx.get(ctx.self, "data")
+        h = ctx.get(ctx.self, "$hist")
+        tmin = ctx.local("t_min")
+        d0 = ctx.old.get(ctx.self, "data")
+        return And(d.n >= 1, suffix_of(d, h), suffix_of(d, d0), times_set(d), sorted_strict(d), files_ok(ctx, d),
+                   Implies(h.n - d.n > 0, tm(d, z3.IntVal(0)) <= tmin.e),
+                   removed_dropped(ctx, d0, d), only_removed(ctx, d0))
+
+    reg.add(Contract(
+        f"{OUT}._clear_data", self_cls="Output", props=["C09.2", "C10.4"],
+        params={"time": Time, "target": TOpt(TRef("IInput"))},
+        requires=clear_pre, ensures=clear_post, modifies=MOD_RET,
+        loops={1: dict(invariant=clear_inv, decreases=lambda ctx: ctx.get(ctx.self, "data").n)},
+    ))
+    register2(reg)
+
+
+# ================================================================================================
+# second part: get_data, pinged, _pack, finalize, push_data
+# ================================================================================================
+FSTR = "fstr:{}-{}.npy"
+
+
+def ctr_of(fn_e):
+    """counter component of a spill file name  join(loc, f"{id}-{counter}.npy")"""
+    from .base import JOIN_INV
+
+    return z3.Function(FSTR + "#inv1", sv.StrS, sv.IntS)(JOIN_INV(fn_e))
+
+
+def owner_of(fn_e):
+    from .base import JOIN_INV
+
+    return z3.Function(FSTR + "#inv0", sv.StrS, sv.IntS)(JOIN_INV(fn_e))
+
+
+def names_ok(ctx, o, h, tag="n"):
+    """every spilled entry ever published carries a name made from a counter value already used"""
+    i = z3.Int(sv.uid(tag))
+    s = lambda k: entry_str_e(h.at(k).items[1])
+    cnt = ctx.get(o, "_mem_counter").e
+    oe = o.e if isinstance(o, sv.SV) else o
+    return z3.ForAll([i], Implies(And(0 <= i, i < h.n, entry_is_str(h.at(i).items[1])),
+                                  And(ctr_of(s(i)) < cnt, ctr_of(s(i)) >= 0, owner_of(s(i)) == oe)))
+
+
+def removed_dropped(ctx, d0, d1, tag="rd"):
+    """files of entries dropped from the front of d0 are gone"""
+    i = z3.Int(sv.uid(tag))
+    s = lambda k: entry_str_e(d0.at(k).items[1])
+    fx1 = fexists(ctx)
+    return z3.ForAll([i], Implies(And(0 <= i, i < d0.n - d1.n, entry_is_str(d0.at(i).items[1])), Not(fx1.dom(s(i)))))
+
+
+def only_removed(ctx, d0, tag="or"):
+    """the file store lost nothing but files named by entries of d0, and gained nothing"""
+    x = z3.Const(sv.uid(tag), sv.StrS)
+    i = z3.Int(sv.uid(tag + "i"))
+    s = lambda k: entry_str_e(d0.at(k).items[1])
+    fx0, fx1 = fexists(ctx.old), fexists(ctx)
+    named = z3.Exists([i], And(0 <= i, i < d0.n, entry_is_str(d0.at(i).items[1]), s(i) == x))
+    return z3.ForAll([x], And(Implies(fx1.dom(x), fx0.dom(x)), Implies(And(fx0.dom(x), Not(fx1.dom(x))), named)))
+
+
+def register2(reg):
+
+    # ------------------------------------------------------------------ get_data (C08.1, C09.3, C20.1)
+    def gd_nodata(ctx):
+        o = ctx.self
+        c0 = ctx.old
+        return Or(is_none(c0.get(o, "_output_info")),
+                  c0.get(o, "_out_infos_exchanged").e < c0.get(o, "_connected_inputs").keys.n,
+                  c0.get(o, "data").n == 0)
+
+    def gd_timeerr(ctx):
+        h = ctx.old.get(ctx.self, "$hist")
+        t = ctx.time.e
+        return And(Not(gd_nodata(ctx)), Or(t < tm(h, z3.IntVal(0)), t > tm(h, h.n - 1)))
+
+    def gd_pre(ctx):
+        o = ctx.self
+        ci = ctx.get(o, "_connected_inputs")
+        tgt = ctx.ex.key_expr(ctx.target)
+        h = ctx.get(o, "$hist")
+        return And(Not(ctx.get(o, "_static").e), out_inv(ctx, o), names_ok(ctx, o, h), ci.dom(tgt),
+                   Implies(Not(is_none(ci.val(tgt))), strip_none(ci.val(tgt)).e <= ctx.time.e))
+
+    def gd_post(ctx, r):
+        o = ctx.self
+        h = ctx.get(o, "$hist")
+        d0, d1 = ctx.old.get(o, "data"), ctx.get(o, "data")
+        return And(nearest_in(ctx, h, ctx.time.e, r), out_inv(ctx, o), ci_updated_of(ctx), length_bound_of(ctx),
+                   removed_dropped(ctx, d0, d1), only_removed(ctx, d0))
+
+    reg.add(Contract(
+        f"{OUT}.get_data", self_cls="Output", props=["C08.1", "C09.3", "C10.3", "C10.4"],
+        params={"time": Time, "target": TOpt(TRef("IInput"))}, result=Pay,
+        requires=gd_pre, ensures=gd_post, modifies=MOD_RET,
+        raises={"FinamNoDataError": gd_nodata, "FinamTimeError": gd_timeerr},
+        must_raise={"FinamNoDataError": gd_nodata, "FinamTimeError": gd_timeerr},
+        raise_frame_empty=True,
+    ))
+
+    # ------------------------------------------------------------------ pinged (C09.1)
+    def pg_dup(ctx):
+        ci = ctx.old.get(ctx.self, "_connected_inputs")
+        return And(Not(ctx.isinstance(ctx.source, "IAdapter")), ci.dom(ctx.source.e))
+
+    def pg_post(ctx, r):
+        ci0 = ctx.old.get(ctx.self, "_connected_inputs")
+        ci1 = ctx.get(ctx.self, "_connected_inputs")
+        c = z3.Int(sv.uid("c"))
+        s = ctx.source.e
+        return And(ci1.dom(s), is_none(ci1.val(s)),
+                   z3.ForAll([c], Implies(c != s, And(ci1.dom(c) == ci0.dom(c), sv.value_eq(ci1.val(c), ci0.val(c))))),
+                   out_inv(ctx, ctx.self))
+
+    reg.add(Contract(
+        f"{OUT}.pinged", self_cls="Output", props=["C09.1"], params={"source": TRef("IInput")},
+        requires=lambda ctx: And(out_inv(ctx, ctx.self), ctx.get(ctx.self, "$hist").n == ctx.get(ctx.self, "data").n),
+        ensures=pg_post, raises={"ValueError": pg_dup}, must_raise={"ValueError": pg_dup}, raise_frame_empty=True,
+        modifies=lambda ctx: [(ctx.self, "_connected_inputs")],
+    ))
+
+    # ------------------------------------------------------------------ _pack (C10.1)
+    def spill_cond(ctx):
+        o = ctx.self
+        c0 = ctx.old
+        lim = c0.get(o, "_mem_limit")
+        tot = c0.get(o, "_total_mem").e
+        nb = NBYTES(ctx.data.e)
+        return And(Not(is_none(lim)), 0 <= strip_none(lim).e, strip_none(lim).e < tot + nb)
+
+    def pack_post(ctx, r):
+        from .base import JOIN_DIR, fdata
+
+        o = ctx.self
+        c0 = ctx.old
+        class _E:
+            pass
+        s, p = _E(), _E()
+        s.e, p.e = entry_str_e(r), entry_pay_e(r)
+        isf = entry_is_str(r)
+        x = z3.Const(sv.uid("x"), sv.StrS)
+        fx0, fx1 = fexists(c0), fexists(ctx)
+        fd0, fd1 = fdata(c0), fdata(ctx)
+        cnt0, cnt1 = c0.get(o, "_mem_counter").e, ctx.get(o, "_mem_counter").e
+        tot0, tot1 = c0.get(o, "_total_mem").e, ctx.get(o, "_total_mem").e
+        loc = c0.get(o, "_mem_location")
+        loc_s = strip_none(loc)
+        spilled = And(
+            isf, fx1.dom(s.e), ctr_of(s.e) == cnt0, owner_of(s.e) == o.e, cnt1 == cnt0 + 1, tot1 == tot0,
+            fd1.val(s.e).e == ctx.data.e,
+            Implies(And(Not(is_none(loc)), ctx.ex.truthy(loc_s, ctx.path)), JOIN_DIR(s.e) == loc_s.e),  # below the configured location
+            z3.ForAll([x], Implies(x != s.e, And(fx1.dom(x) == fx0.dom(x), fd1.val(x).e == fd0.val(x).e))),
+        )
+        in_ram = And(Not(isf), p.e == ctx.data.e, cnt1 == cnt0, tot1 == tot0 + NBYTES(ctx.data.e),
+                     z3.ForAll([x], And(fx1.dom(x) == fx0.dom(x), fd1.val(x).e == fd0.val(x).e)))
+        return If(spill_cond(ctx), spilled, in_ram)
+
+    reg.add(Contract(
+        f"{OUT}._pack", self_cls="Output", props=["C10.1"], params={"data": Pay}, result=Entry,
+        requires=lambda ctx: ctx.get(ctx.self, "_mem_counter").e >= 0,
+        ensures=pack_post,
+        modifies=lambda ctx: [(ctx.self, "_total_mem"), (ctx.self, "_mem_counter"), (WORLD, "$fexists"), (WORLD, "$fdata")],
+    ))
+
+    # ------------------------------------------------------------------ finalize (C10.4)
+    def fin_pre(ctx):
+        d = ctx.get(ctx.self, "data")
+        return files_ok(ctx, d)
+
+    def fin_post(ctx, r):
+        d0 = ctx.old.get(ctx.self, "data")
+        i = z3.Int(sv.uid("fi"))
+        s = lambda k: entry_str_e(d0.at(k).items[1])
+        gone = z3.ForAll([i], Implies(And(0 <= i, i < d0.n, entry_is_str(d0.at(i).items[1])), Not(fexists(ctx).dom(s(i)))))
+        return And(ctx.get(ctx.self, "data").n == 0, gone, only_removed(ctx, d0))
+
+    def fin_inv(ctx):
+        d0 = ctx.old.get(ctx.self, "data")
+        d = ctx.get(ctx.self, "data")
+        i = z3.Int(sv.uid("fi"))
+        x = z3.Const(sv.uid("fx"), sv.StrS)
+        s = lambda k: entry_str_e(d0.at(k).items[1])
+        isf = lambda k: entry_is_str(d0.at(k).items[1])
+        fx0, fx1 = fexists(ctx.old), fexists(ctx)
+        removed = lambda y: z3.Exists([i], And(0 <= i, i < ctx.k, isf(i), s(i) == y))
+        return And(d.n == d0.n,
+                   z3.ForAll([i], Implies(And(0 <= i, i < d0.n), sv.value_eq(d.at(i), d0.at(i)))),
+                   z3.ForAll([x], fx1.dom(x) == And(fx0.dom(x), Not(removed(x)))))
+
+    reg.add(Contract(
+        f"{OUT}.finalize", self_cls="Output", props=["C10.4"], params={},
+        requires=fin_pre, ensures=fin_post, modifies=lambda ctx: [(ctx.self, "data"), (WORLD, "$fexists")],
+        loops={1: dict(invariant=fin_inv)},
+    ))
+
+
+def ci_updated_of(ctx):
+    ci0 = ctx.old.get(ctx.self, "_connected_inputs")
+    ci1 = ctx.get(ctx.self, "_connected_inputs")
+    c = z3.Int(sv.uid("c"))
+    tgt = ctx.ex.key_expr(ctx.target)
+    return And(
+        ci1.dom(tgt), Not(is_none(ci1.val(tgt))), strip_none(ci1.val(tgt)).e == ctx.time.e,
+        z3.ForAll([c], Implies(c != tgt, And(ci1.dom(c) == ci0.dom(c), sv.value_eq(ci1.val(c), ci0.val(c))))),
+    )
+
+
+def length_bound_of(ctx):
+    d = ctx.get(ctx.self, "data")
+    ci = ctx.get(ctx.self, "_connected_inputs")
+    c = z3.Int("c!slow")
+    slow = z3.Exists([c], And(ci.dom(c), Not(is_none(ci.val(c))), tm(d, z3.IntVal(1)) > strip_none(ci.val(c)).e))
+    return Implies(all_pulled(ci), Or(d.n == 1, slow))
+
+
+def info_ready_of(ctx, o):
+    return And(Not(is_none(ctx.get(o, "_output_info"))),
+               ctx.get(o, "_out_infos_exchanged").e >= ctx.get(o, "_connected_inputs").keys.n)
+
+
+REPLAY = {
+    f"{OUT}._interpolate": ["output_hist.py", "seq_output.py"],
+    f"{OUT}._clear_data": "seq_output.py", f"{OUT}.get_data": "seq_output.py", f"{OUT}.pinged": "seq_output.py",
+    f"{OUT}._pack": "seq_output.py", f"{OUT}._unpack": "seq_output.py", f"{OUT}.finalize": "seq_output.py",
+    f"{OUT}.push_data": "seq_output.py",
+}
